@@ -16,7 +16,7 @@ import pipegen
 import terms
 
 PID = "C02"
-PROPS = ["PfModel.Props.C02"]
+PROPS = ["PfModel.Props.C02", "PfModel.Props.C02Needed"]
 DRIVER = "C02"
 RULE = ("random DAGs of 1-6 term-building functions (nullary, tuple outputs, shared parameters, defaults, bound values incl. over an "
         "upstream output, renames); for every output every listed argument combination (all when <= 16, else 16 sampled) plus "
